@@ -247,16 +247,22 @@ package geom
 //@   trusted
 //@ func LineString.AppendWKB
 //@   trusted
+//@   modifies dst
 //@ func Polygon.AppendWKB
 //@   trusted
+//@   modifies dst
 //@ func MultiPoint.AppendWKB
 //@   trusted
+//@   modifies dst
 //@ func MultiLineString.AppendWKB
 //@   trusted
+//@   modifies dst
 //@ func MultiPolygon.AppendWKB
 //@   trusted
+//@   modifies dst
 //@ func GeometryCollection.AppendWKB
 //@   trusted
+//@   modifies dst
 
 //@ func maxInt
 //@   ensures result >= a && result >= b && (result == a || result == b)
